@@ -30,6 +30,10 @@ RD = {"_GET": "RSg GGet", "_POST": "RSg GPost", "_COOKIE": "RSg GCookie", "_SERV
       "jsonbody": "RLocal",
       # foreach over a process-wide static associative table that requests only read (parked inside the loop body)
       "static_iter": "RLocal",
+      # except() on a key of the query string, and that key read through the request object
+      "rexceptq": "RObj", "rtok": "RObj", "rtokq": "RObj",
+      # a plain recursive function parked 14 frames deep; a shared prototype object cloned per request
+      "deep": "RLocal", "cap_clone": "RLocal",
       # per-request data through methods of the request object (all / only / except / query / Cookie header / formValue /
       # postFormValue / fullUrl / bind into a DTO with property defaults)
       "rall": "RObj", "ronly": "RObj", "rexcept": "RObj", "rqueryp": "RObj", "rcookie": "RObj", "rformval": "RObj",
@@ -66,6 +70,7 @@ def owner(v):
     v = str(v)
     if v.startswith("id="):
         v = v[3:]
+    v = v.split("&")[0]          # the query string is id=<i>&tok=<i>
     return int(v) if v.isdigit() else None
 
 
@@ -170,7 +175,7 @@ def gated_cases(rng, tier):
     # the route handler is a closure that captured an array, a map and a counter by value at registration and mutates them
     # in place (append, key store, increment): after a warm-up request, serial requests in every order (appends must not
     # accumulate), every interleaving of two requests (a key stored before a gate is read back after it), parked shapes
-    capprog = [["cap_arr", "cap_set", "cap_cnt", "local"], ["cap_get", "cap_arr", "cap_cnt", "rquery"]]
+    capprog = [["cap_arr", "cap_set", "cap_cnt", "cap_clone", "local"], ["cap_get", "cap_arr", "cap_cnt", "cap_clone", "rquery"]]
     for mw in (0, 1):
         for order in itertools.permutations(range(3)):
             cases.append({"segs": capprog, "nreq": 3, "schedule": [i for i in order for _ in range(3)], "route": "mux", "mw": mw, "cap": True, "warmup": True, "gen": "captured-serial"})
@@ -181,7 +186,7 @@ def gated_cases(rng, tier):
     # every Request method that returns per-request data, and a per-request closure with static locals: serial orders
     # after a warm-up (request 99 is odd: it sends the optional field that even requests omit), all 2x2 interleavings,
     # parked shapes; on the plain mux and behind a middleware
-    accprog = [["rbind", "rall", "ronly", "rexcept", "clo_static"], ["rqueryp", "rcookie", "rformval", "rpostform", "rurl", "rbind", "clo_static"]]
+    accprog = [["rbind", "rall", "ronly", "rexcept", "rexceptq", "rtok", "rtokq", "clo_static"], ["rqueryp", "rcookie", "rformval", "rpostform", "rurl", "rbind", "rtok", "rtokq", "clo_static"]]
     for mw in (0, 1):
         for order in itertools.permutations(range(3)):
             cases.append({"segs": accprog, "nreq": 3, "schedule": [i for i in order for _ in range(3)], "route": "mux", "mw": mw, "warmup": True, "gen": "request-methods-serial"})
@@ -198,6 +203,11 @@ def gated_cases(rng, tier):
             cases.append({"segs": prog, "nreq": 2, "schedule": list(sch), "route": "annot", "mw": 1, "warmup": True, "gen": "annotation-2x2"})
         for sch in ([0, 0, 1, 1, 1, 2, 2, 2, 0], [0, 1, 2, 2, 1, 0, 0, 1, 2]):
             cases.append({"segs": prog, "nreq": 3, "schedule": sch, "route": "annot", "mw": 1, "warmup": True, "gen": "annotation-parked"})
+    # many requests in flight, each parked 14 frames deep in a plain recursive function (a per-VM call-depth counter would
+    # add them up): 40 requests enter, descend and park; then they finish one by one
+    n = 40
+    cases.append({"segs": [["deep", "local"]], "nreq": n, "schedule": [i for i in range(n) for _ in range(2)], "route": "mux", "mw": 0, "gen": "deep-frames-in-flight"})
+    cases.append({"segs": [["deep", "local"]], "nreq": n, "schedule": [i for i in range(n) for _ in range(2)], "route": "handler", "gen": "deep-frames-in-flight"})
     # read-only iteration of a shared static table: strictly alternating, nested windows and 12 shuffled schedules
     # (each request: entry + 3 parkings inside each of the two loops + 2 stage ends)
     iprog = [["static_iter", "local"], ["static_iter", "rquery"]]
@@ -394,6 +404,8 @@ def main(ck):
         c["_obs"] = obs
         if c.get("warmup") and o.get("warmup") and any(v != 99 for v in observed(c["segs"], o["warmup"], c.get("mw", 0), c.get("mwsg", False), q)):
             ck.violation("private:warmup-response", {"case": c, "impl_out": o["warmup"], "clause": "a request served alone gets its own response"})
+        if c.get("warmup") and o.get("warmup2") and any(v != 99 for v in observed(c["segs"], o["warmup2"], c.get("mw", 0), c.get("mwsg", False), q)):
+            ck.violation("private:repeated-request-response", {"case": c, "impl_out": o["warmup2"], "clause": "the same request served alone a second time (byte-identical query string) gets the same response"})
         terms.append("(%s, %d, %s, %s)" % (coq_prog(c["segs"], c.get("mw", 0), c.get("mwsg", False), q), c["nreq"], coq_list(str(x) for x in o["order"]),
                                             coq_list(coq_obs(v) for v in obs)))
         idx.append(i)
